@@ -100,6 +100,24 @@ def runStream (ws : List String) : String :=
     match parseChunks msgs with
     | some ms => runStreamE2E t cuts ms
     | none => "bad-case"
+  | "mtslow" :: _ :: counts :: toks =>
+    -- a stalled receiver: per thread the expected number of messages is given; each thread's messages must
+    -- arrive complete and in its order (the send lock is held for the whole frame, whatever its duration)
+    let cs := (counts.splitOn ",").filterMap (·.toNat?)
+    let parsed := toks.filterMap fun w => match w.splitOn "." with
+      | [a, b] => match a.toNat?, b.toNat? with
+        | some a, some b => some (a, b)
+        | _, _ => none
+      | _ => none
+    if parsed.length != toks.length then "bad-case"
+    else
+      let bad := (List.range cs.length).find? fun th =>
+        let seqs := (parsed.filter (·.1 == th)).map (·.2)
+        let incr := (seqs.zip seqs.tail).all fun (a, b) => a < b
+        !(incr && seqs.length == cs.getD th 0)
+      match bad with
+      | some th => s!"thread {th}: messages lost, duplicated or reordered"
+      | none => if parsed.any (·.1 ≥ cs.length) then "unknown thread" else "ok"
   | "mt" :: t :: th :: per :: toks =>
     match th.toNat?, per.toNat? with
     | some th, some per => runStreamMt t th per toks
